@@ -19,6 +19,7 @@ UNDEF = _Mark("UNDEF")
 SKIP = _Mark("SKIP")
 
 MAX_BITS = 6000
+NEAR = Fraction(1, 10 ** 9)
 
 
 class State:
@@ -89,8 +90,16 @@ def ev(s, env, st):
         elif tag == "abs":
             r = abs(a)
         elif tag == "sgn":
+            # sgn is discontinuous at 0: when rounding is in play (float constants, inexact powers) an argument
+            # within the rounding tolerance of 0 has no trustworthy sign - the point is not judged
+            if (st.track or st.inexact) and abs(a) <= NEAR * max(Fraction(1), st.scale):
+                return SKIP
             r = Fraction((a > 0) - (a < 0))
         else:
+            if (st.track or st.inexact) and a.denominator != 1:
+                near = round(a)
+                if abs(a - near) <= NEAR * max(Fraction(1), st.scale):
+                    return SKIP  # factorial of something within rounding of an integer: not judged
             if a.denominator != 1 or a < 0:
                 return UNDEF
             if a > 300:
